@@ -25,6 +25,9 @@ class PRow:
     def getitem(self, idx):
         items = idx if isinstance(idx, tuple) else (idx,)
         ints = [i for i in items if isinstance(i, int) and not isinstance(i, bool)]
+        if len(items) == 2 and isinstance(items[1], (list, tuple)) and all(isinstance(c, int) and not isinstance(c, bool) for c in items[1]) \
+                and not isinstance(items[0], int):
+            return PRow([self.values[c] for c in items[1]], self.lead)  # a[:, [c0, c1]] : a selection of columns
         if any(i is None for i in items) and not ints:
             return PRow(self.values, self.lead + sum(1 for i in items if i is None))
         if len(ints) == 1:
@@ -131,6 +134,8 @@ def b_len(I, args, kw):
         return x.length
     if isinstance(x, Arr):
         return len(x.items)
+    if isinstance(x, PRow):
+        return Sym(z3.Int("nrows"), "int")  # number of rows of the (N, d) array seen at an arbitrary row
     from .interp import SymObj
 
     if isinstance(x, SymObj):
@@ -997,6 +1002,14 @@ def np_prod(I, args, kw):
 
 @_ext_frame("numpy.sum")
 def np_sum(I, args, kw, frame=None, node=None):
+    if isinstance(args[0], PRow):
+        ax = kw.get("axis", args[1] if len(args) > 1 else None)
+        if ax not in (-1, args[0].lead):
+            raise Unsupported(f"numpy.sum of a row-array along axis {ax}")
+        r = args[0].values[0]
+        for v in args[0].values[1:]:
+            r = v_add(r, v)
+        return r
     return seq_sum(I, args[0], frame, node)
 
 
